@@ -55,7 +55,7 @@ func c14Gen(t *rapid.T) interface{} {
 		n := lib.IntN(t, 1, 4, "nops")
 		var ops []c14Op
 		for j := 0; j < n; j++ {
-			ops = append(ops, c14Op{Kind: lib.PickStr(t, []string{"multi", "multi", "nearest", "add"}, "kind"), Query: lib.IntN(t, 0, nq-1, "query")})
+			ops = append(ops, c14Op{Kind: lib.PickStr(t, []string{"multi", "multi", "nearest", "add", "add-same-key"}, "kind"), Query: lib.IntN(t, 0, nq-1, "query")})
 		}
 		c.Ops = append(c.Ops, ops)
 	}
@@ -127,6 +127,7 @@ func c14Check(ci interface{}) lib.Outcome {
 	cl, _ := c14Populate(c)
 	var mu sync.Mutex
 	firstBad := ""
+	sameKeyOK, sameKeyCalls := 0, 0
 	var wg sync.WaitGroup
 	start := make(chan struct{})
 	for g, ops := range c.Ops {
@@ -147,6 +148,15 @@ func c14Check(ci interface{}) lib.Outcome {
 					if got := fmt.Sprintf("%s %b", nm.Name, nm.Confidence); got != refNearest[i] {
 						bad = fmt.Sprintf("goroutine %d call %d: concurrent NearestMatch(query %d) = %s, sequentially %s", g, step, i, got, refNearest[i])
 					}
+				case "add-same-key":
+					// several goroutines register the same new key: sequentially exactly one such call succeeds
+					err := cl.AddValue("contended-key", strings.Repeat(fmt.Sprintf("zzcontended%dq%d ", g, step), 400))
+					mu.Lock()
+					sameKeyCalls++
+					if err == nil {
+						sameKeyOK++
+					}
+					mu.Unlock()
 				case "add":
 					// new keys whose words are disjoint from every query
 					cl.AddValue(fmt.Sprintf("extra-%d-%d", g, step), strings.Repeat(fmt.Sprintf("zzunrelated%dq%d ", g, step), 30))
@@ -166,7 +176,13 @@ func c14Check(ci interface{}) lib.Outcome {
 	if firstBad != "" {
 		return lib.Outcome{Violation: firstBad}
 	}
+	if sameKeyCalls > 0 && sameKeyOK != 1 {
+		return lib.Outcome{Violation: fmt.Sprintf("%d concurrent AddValue calls with the same new key: %d of them succeeded, sequentially exactly one does", sameKeyCalls, sameKeyOK)}
+	}
 	classes := []string{fmt.Sprintf("goroutines-%d", len(c.Ops))}
+	if sameKeyCalls > 1 {
+		classes = append(classes, "contended-AddValue-same-key")
+	}
 	if c.Precomputed {
 		classes = append(classes, "precomputed-search-sets")
 	} else {
@@ -178,6 +194,6 @@ func c14Check(ci interface{}) lib.Outcome {
 
 func TestVerif_C14_StringClassifier(t *testing.T) {
 	lib.Run(t, lib.Spec{ID: "C14", Part: "stringclassifier",
-		Rule: "2-8 known values of 25-90 words added with AddValue (lazy search sets) or AddPrecomputedValue; 2-16 goroutines released by one barrier on a fresh classifier, each issuing 1-4 of MultipleMatch / NearestMatch (queries = a value with a few words deleted, in context: unique best match) / AddValue (new keys with disjoint words); built with -race; every result compared with the sequential result on an identically populated separate classifier; non-trivial = at least 2 goroutines",
+		Rule: "2-8 known values of 25-90 words added with AddValue (lazy search sets) or AddPrecomputedValue; 2-16 goroutines released by one barrier on a fresh classifier, each issuing 1-4 of MultipleMatch / NearestMatch (queries = a value with a few words deleted, in context: unique best match) / AddValue (new keys with disjoint words; also several goroutines registering the same new key, of which exactly one must succeed); built with -race; every result compared with the sequential result on an identically populated separate classifier; non-trivial = at least 2 goroutines",
 		New:  func() interface{} { return &c14Case{} }, Gen: c14Gen, Check: c14Check})
 }
